@@ -76,7 +76,8 @@ def batches(tier):
 # clouds and systems
 # ----------------------------------------------------------------------------
 
-CLOUD_CLASSES = ["random", "interior", "near_flat", "skewed", "simplex", "box", "clustered"]
+CLOUD_CLASSES = ["random", "interior", "near_flat", "skewed", "simplex", "box", "clustered",
+                 "flat"]
 
 
 def make_cloud(rng: PlanRng, dim, cls):
@@ -104,6 +105,13 @@ def make_cloud(rng: PlanRng, dim, cls):
         from itertools import product
         Pm = np.array(list(product([0.0, 1.0], repeat=dim))) * rng.g.uniform(0.5, 3.0, dim)
         Pm = np.vstack([Pm, Pm.mean(0)[None]])
+    elif cls == "flat":
+        # exactly rank-deficient: all points in a (dim-1)-dimensional affine subspace.  There is
+        # no volume to be uniform in, so the call may refuse (QhullError); if it answers, count,
+        # membership and reproducibility still apply.
+        B2 = rng.g.normal(size=(dim - 1, dim))
+        Pm = rng.g.normal(size=(m, dim - 1)) @ B2
+        return sig(Pm, 15) + 0.0
     else:  # clustered: many points in one corner, few far away
         Pm = np.vstack([0.01 * rng.g.normal(size=(m, dim)),
                         rng.g.uniform(2, 5, size=(dim + 1, dim))])
@@ -164,8 +172,8 @@ def generate(rs, mode, tier, index):
     rng = PlanRng(rs)
     dim = rng.integers(2, 4)
     clouds = {}
-    for j in range(rng.integers(1, 2)):
-        cls = rng.choice(CLOUD_CLASSES)
+    for j in range(rng.integers(1, 3)):
+        cls = rng.choice(CLOUD_CLASSES, p=[3, 2, 2, 2, 1, 1, 1, 1])
         clouds[f"P{j}"] = {"cls": cls, "P": make_cloud(rng, dim, cls)}
     sysd = make_system(rng) if rng.coin(0.6) or mode == "uniform" and rng.coin(0.5) else None
     targets = list(clouds) + (["est"] if sysd else [])
@@ -224,7 +232,8 @@ def generate(rs, mode, tier, index):
             ca.pop("l1", None)
             ca["n"] = min(ca["n"], 100)
             ops.append({"abort": ca, "how": rng.choice(["interrupt", "warnings"], p=[0.75, 0.25]),
-                        "frac": float(sig(rng.random(), 4))})
+                        "frac": float(sig(rng.random(), 4)),
+                        "count": rng.choice([1, 8, 40], p=[1, 2, 2])})
         if sysd is not None and rng.coin(0.2):
             # the system's registered values change between sampling calls: later samples
             # must lie in the *current* gamut
@@ -447,8 +456,11 @@ def execute(plan):
                 if op["how"] == "interrupt":
                     with LineInterrupter(None) as li0:
                         call(do_call)
-                    if li0.count:
-                        with LineInterrupter(int(op["frac"] * li0.count)) as li:
+                    cnt = int(op.get("count", 1))
+                    for j in range(cnt if li0.count else 0):
+                        # a sweep of crash points spread over the call
+                        n_int = int(((op["frac"] + j / cnt) % 1.0) * li0.count)
+                        with LineInterrupter(n_int) as li:
                             try:
                                 call(do_call)
                             except SimInterrupt:
@@ -502,6 +514,12 @@ def execute(plan):
             if sk == "scripted":
                 bump("fault:scripted_draw")
                 nontrivial = True
+            if not out.ok and c["t"] != "est" and plan["clouds"][c["t"]]["cls"] == "flat" \
+                    and out.value == "QhullError":
+                bump("flat_cloud_refused")
+                results[oi] = ("refused",)
+                perturbed_since[oi] = False
+                continue
             if not out.ok:
                 raise Violation(ID, "sampling_raised",
                                 f"sampling call {c} raised {out.brief()}", call=c, op=oi,
